@@ -305,7 +305,8 @@ def check_optional_batch_item_fields(ctx, t):
     ctx.rule('C19.R7', 'in KMIPProxy a response batch item field that failure responses omit (operation, response_payload, unique_batch_item_id) is dereferenced only on the success edge of the status test or under a None test of that field: otherwise a message-level failure (no operation echoed) ends in AttributeError instead of the server\'s status, reason and message')
     cls = get_class(t, 'KMIPProxy')
     n = 0
-    for name, fn in methods(cls).items():
+    from ..inline import flat_methods as _fm
+    for name, fn in _fm(cls)[0].items():
         # locals bound to a batch item: X = <...>.batch_items[i] / for X in <...>.batch_items / parameter named batch_item
         items = set(a.arg for a in fn.args.args if a.arg == 'batch_item')
         for x in walk_local(fn):
@@ -375,7 +376,8 @@ def run(ctx):
         ctx.rule(rid, text)
     pt = src.tree(PIE)
     pc = get_class(pt, 'ProxyKmipClient')
-    ops = [(n, f) for n, f in methods(pc).items() if any(d == 'is_connected' for d, _ in decorator_names(f))]
+    from ..inline import flat_methods
+    ops = [(n, f) for n, f in flat_methods(pc)[0].items() if any(d == 'is_connected' for d, _ in decorator_names(f))]
     ctx.count('client_operations', len(ops), 21)
     n_status = n_srp = 0
     for name, fn in sorted(ops):
@@ -429,7 +431,8 @@ def run(ctx):
     # ---------------- KMIPProxy
     xt = src.tree(PROXY)
     xc = get_class(xt, 'KMIPProxy')
-    xm = methods(xc)
+    from ..inline import flat_methods as _fm2
+    xm = _fm2(xc)[0]
     srp = get_method(xc, 'send_request_payload')
     sg = CFG(srp)
     srd = ReachingDefs(sg)
